@@ -678,6 +678,14 @@ def _rhs_parts(fn):
                 if isinstance(v, ast.Call) and ast.unparse(v.func).split('.')[-1] in ('dtype_f', 'f_init') or ast.unparse(v) in ('self.f_init',):
                     continue
                 parts.setdefault(txt.split('.')[-1] if '.' in txt else 'full', []).append(v)
+    # a component that is also built up by augmented assignments (f.impl[:] = ..; f.impl -= ..) is not ONE expression: not decided
+    for s in ast.walk(fn):
+        if isinstance(s, ast.AugAssign):
+            t = s.target
+            base = t.value if isinstance(t, ast.Subscript) else t
+            txt = ast.unparse(base)
+            if txt in ('f', 'f.impl', 'f.expl', 'f.comp1', 'f.comp2', 'f.comp3'):
+                parts.pop(txt.split('.')[-1] if '.' in txt else 'full', None)
     return parts
 
 
